@@ -237,9 +237,14 @@ class World(EventDispatcher):
         (TODO) returns cached results from this method.
         """
         fringe = [component_type]
+        visited = set()     # With multiple inheritance, visit subtypes once
 
         while fringe:
             subtype = fringe.pop()
+            if subtype in visited:
+                continue
+
+            visited.add(subtype)
             fringe += subtype.__subclasses__()
 
             for entity in self._components.get(subtype, []):
